@@ -368,6 +368,9 @@ _SCALAR_RES = [(re.compile(r"^(?:const\s+)?" + re.escape(t).replace(r"\ ", r"\s+
 
 def _match_type(s):
     """-> (normalised type or None, remainder of s)"""
+    m = _MV2_RE.match(s)
+    if m:
+        return "double[:,:]", s[m.end():].strip()
     m = _MV_RE.match(s)
     if m:
         return "double[:]", s[m.end():].strip()
@@ -413,6 +416,23 @@ def _split_assign(body):
         i += 1
     parts.append(cur)
     return parts
+
+
+_MV2_RE = re.compile(r"^(?:const\s+)?(?:double|np\.float64_t|np\.float_t|np\.double_t)\s*"
+                     r"\[\s*::?\s*1?\s*,\s*::?\s*1?\s*\]"
+                     r"|^np\.ndarray\s*\[\s*(?:np\.float64_t|np\.float_t|np\.double_t|double)\s*,"
+                     r"\s*ndim\s*=\s*2\s*(?:,\s*mode\s*=\s*['\"]c['\"]\s*)?\]")
+
+
+def _mv2(a):
+    """a `double[:, :]` parameter or typed local: 2-D float64 buffer (numpy's own index
+    checking applies: out-of-range raises, negative indices wrap)"""
+    a = np.asarray(a)
+    if a.ndim != 2:
+        raise ValueError("Buffer has wrong number of dimensions (expected 2, got %d)" % a.ndim)
+    if a.dtype != np.float64:
+        raise ValueError("Buffer dtype mismatch, expected 'double' but got %s" % a.dtype)
+    return a
 
 
 def _parse_arg(a):
@@ -602,7 +622,10 @@ def translate(text, modname="?"):
             func_indent.append(indent)
             binds = []
             for (t, n, _) in args:
-                if t == "double[:]":
+                if t == "double[:,:]":
+                    binds.append("%s = _mv2(%s)" % (n, n))
+                    cur_types()[n] = "double[:,:]"
+                elif t == "double[:]":
                     binds.append("%s = _mv(%s, %r)" % (n, n, n))
                     cur_types()[n] = "double[:]"
                 elif t in ("double", "float"):
@@ -715,6 +738,8 @@ def _wrap(ctype, expr):
         return "_cint(%s)" % expr
     if ctype == "double[:]":
         return "_strict(%s)" % expr
+    if ctype == "double[:,:]":
+        return "_mv2(%s)" % expr
     raise ShimError("unknown ctype %r" % ctype)
 
 
@@ -759,7 +784,7 @@ class Shim(object):
             mod.__dict__.update(dict(
                 _mv=_mv if unchecked else _mv_checked,
                 _strict=_strict if unchecked else _strict_checked,
-                _f64=_f64, _cint=_cint, _icast=_icast, _Struct=_Struct, fabs=fabs, fmax=fmax, fmin=fmin))
+                _f64=_f64, _cint=_cint, _icast=_icast, _Struct=_Struct, _mv2=_mv2, fabs=fabs, fmax=fmax, fmin=fmin))
             mod.__shim_directives__ = dirs
             import math as _m
             for nm in ("sqrt", "floor", "ceil", "exp", "log", "pow", "isnan", "isinf"):
